@@ -5,6 +5,7 @@ Line-protocol drivers for the library cases (lib12, lib14, lib15, lib17); same t
 import PieModel.Lib.Checkers
 import PieModel.Lib.MapRes
 import PieModel.Lib.Identity
+import PieModel.Lib.MapObj
 import PieModel.Lib.EventTracker
 import PieModel.Build.Pie
 import Driver.BuildDrv
@@ -138,49 +139,42 @@ def lib14Step (m : TMap) (l : String) : Option (TMap × String) :=
   | _ => none
 
 /-- The object flavour of the map resource (`MapKeyObjToObj`: type-erased keys `Box<dyn KeyObj>` to type-erased values
-`Box<dyn MapValueObj>`): its own resource type, hence its own slot, independent of the typed maps; keys and values are
-(type tag, value) pairs compared by `eq_any` (`Identity.eqAny`); zero-sized types (tags 2, 3) carry value 0. -/
-structure OState where
-  omap : List (Identity.Key × Identity.Key) := []
+`Box<dyn MapValueObj>`): the VERIFIED model `PieModel/Lib/MapObj.lean` (theorems `Props/C14Obj.lean`: refinement to a map
+keyed by (concrete type, value), aliasing iff `eq_any`, checker iff, isolation from the typed maps).  Zero-sized types
+(tags 2, 3) carry value 0.  The driver keeps the stamps taken so far. -/
+structure OSt where
+  omap : MapObj.OState := []
   ostamps : Array (Option Identity.Key) := #[]
 
-def okey (t n : Nat) : Option Identity.Key :=
-  if t > 3 then none else some { ty := t, val := if t ≥ 2 then 0 else n }
-
-def oget (o : OState) (k : Identity.Key) : Option Identity.Key :=
-  (o.omap.find? (fun kv => Identity.eqAny kv.1 k)).map (·.2)
+def okeyOf (t n : Nat) : Option Identity.Key :=
+  if t > 3 then none else some (MapObj.okey t (if t ≥ 2 then 0 else n))
 
 def oshow (v : Option Identity.Key) : String :=
   match v with | some x => s!"some:{x.ty}:{x.val}" | none => "none"
 
-def lib14OStep (o : OState) (l : String) : Option (OState × String) :=
+def lib14OStep (o : OSt) (l : String) : Option (OSt × String) :=
   match l.splitOn " " with
   | ["oins", kt, kn, vt, vn] => do
-    let k ← okey (← kt.toNat?) (← kn.toNat?); let v ← okey (← vt.toNat?) (← vn.toNat?)
-    let old := oget o k
-    pure ({ o with omap := (o.omap.filter (fun kv => !Identity.eqAny kv.1 k)) ++ [(k, v)] }, oshow old)
+    let k ← okeyOf (← kt.toNat?) (← kn.toNat?); let v ← okeyOf (← vt.toNat?) (← vn.toNat?)
+    pure ({ o with omap := MapObj.objInsert o.omap k v }, oshow (MapObj.objRead o.omap k))
   | ["orem", kt, kn] => do
-    let k ← okey (← kt.toNat?) (← kn.toNat?)
-    pure ({ o with omap := o.omap.filter (fun kv => !Identity.eqAny kv.1 k) }, oshow (oget o k))
+    let k ← okeyOf (← kt.toNat?) (← kn.toNat?)
+    pure ({ o with omap := MapObj.objRemove o.omap k }, oshow (MapObj.objRead o.omap k))
   | ["oread", kt, kn] => do
-    let k ← okey (← kt.toNat?) (← kn.toNat?)
-    pure (o, oshow (oget o k))
+    let k ← okeyOf (← kt.toNat?) (← kn.toNat?)
+    pure (o, oshow (MapObj.objRead o.omap k))
   | ["ostamp", kt, kn] => do
-    let k ← okey (← kt.toNat?) (← kn.toNat?)
-    pure ({ o with ostamps := o.ostamps.push (oget o k) }, s!"s{o.ostamps.size} {oshow (oget o k)}")
+    let k ← okeyOf (← kt.toNat?) (← kn.toNat?)
+    let st := MapObj.objStampPath o.omap k
+    pure ({ o with ostamps := o.ostamps.push st }, s!"s{o.ostamps.size} {oshow st}")
   | ["ocheck", kt, kn, i] => do
-    let k ← okey (← kt.toNat?) (← kn.toNat?); let i ← i.toNat?
+    let k ← okeyOf (← kt.toNat?) (← kn.toNat?); let i ← i.toNat?
     let st ← o.ostamps[i]?
-    let cur := oget o k
-    let same := match cur, st with
-      | none, none => true
-      | some a, some b => Identity.eqAny a b
-      | _, _ => false
-    pure (o, showCons same)
+    pure (o, showCons (MapObj.objCheck o.omap k st))
   | _ => none
 
 def runLib14 (lines : List String) : List String :=
-  let rec go (m : MapRes.TMap) (o : OState) : List String → List String → List String
+  let rec go (m : MapRes.TMap) (o : OSt) : List String → List String → List String
     | [], acc => acc.reverse
     | l :: ls, acc =>
       if l.startsWith "o" then
